@@ -550,6 +550,10 @@ pub fn extremal_family(out: &mut Vec<Crafted>) {
     let u = |s: &str| Mv::parse_uci(s).unwrap();
     // 16 white men all mobile, two of them pawns that may both capture e.p. after ...d7d5
     for (fen, mv) in [
+        // 8 mobile pawns + 8 mobile pieces + two e.p. entries = 18 move-list entries (the capacity)
+        ("4k3/3p4/8/2P1P3/PP3PPP/3P4/8/RNBQKBNR b - - 0 1", "d7d5"),
+        ("rnbqkbnr/8/3p4/pp3ppp/2p1p3/8/3P4/4K3 w - - 0 1", "d2d4"),
+        ("4k3/6p1/8/5P1P/PPPPP3/8/8/RNBQKBNR b - - 0 1", "g7g5"),
         ("4k3/3p4/8/2P1P3/8/1B1Q1B2/N1PKP1NP/R6R b - - 0 1", "d7d5"),
         ("4k3/3p4/8/2P1P3/7P/1B1Q1B2/N1PKP1N1/R6R b - - 0 1", "d7d5"),
         ("r6r/n1pkp1np/1b1q1b2/8/2p1p3/8/3P4/4K3 w - - 0 1", "d2d4"),
